@@ -201,3 +201,51 @@ def connect_hooks() -> bool:
 
 def tags() -> list[str]:
     return [t for t, _ in LOG.trace]
+
+
+
+class BudgetExceeded(Exception):
+    """Raised inside a call that used more Python function activations than its step budget allows."""
+
+
+class step_budget:
+    """Context manager: count Python function activations (sys.monitoring PY_START) and abort the running call with
+    BudgetExceeded once more than ``budget`` were made - termination judged by logical steps, never by the wall clock.
+    ``used`` holds the count afterwards."""
+
+    TOOL = 4
+
+    def __init__(self, budget: int):
+        self.budget = budget
+        self.used = 0
+
+    def __enter__(self):
+        import sys
+
+        mon = sys.monitoring
+        try:
+            mon.use_tool_id(self.TOOL, "vmon-steps")
+        except ValueError:
+            pass
+
+        def on_start(code, offset):
+            self.used += 1
+            if self.used > self.budget:
+                mon.set_events(self.TOOL, 0)
+                raise BudgetExceeded()
+
+        mon.register_callback(self.TOOL, mon.events.PY_START, on_start)
+        mon.set_events(self.TOOL, mon.events.PY_START)
+        return self
+
+    def __exit__(self, *exc):
+        import sys
+
+        mon = sys.monitoring
+        mon.set_events(self.TOOL, 0)
+        mon.register_callback(self.TOOL, mon.events.PY_START, None)
+        try:
+            mon.free_tool_id(self.TOOL)
+        except ValueError:
+            pass
+        return False
